@@ -1,5 +1,31 @@
 /-
 C03 — a file built through the API decodes, per the ELF specification, to what was put in.
+
+Proved (all for every class, byte order, object; hypotheses explicit):
+ 1. records — `encodeShdr_spec_bytes`, `encodePhdr_spec_bytes`: every field of the record the writer
+    emits is `encodeInt enc width value` at the gABI offset (Spec/Records.lean): "multi-byte fields are
+    stored in the declared byte order"; `encodeShdr_eq_spec`, `encodePhdr_eq_spec`: the specification's
+    decoder reads the fields back (`FieldsFit`/`SegFit`: values fit the class width — the setters
+    truncate); `decodeShdr_encodeShdr`, `decodePhdr_encodePhdr` (model decoder ∘ encoder = id).
+ 2. ELF header setters — `hdr_set_eq_wr`, `hdr_set_get_spec`, `hdr_set_frame_spec`, `hdr_set_get`,
+    `hdr_set_frame`, `hdr_set_ident_get`; algebra `set_slice_same/other`, `set_absorb`, `set_set`.
+ 2b. construction — `create_eq`/`create_header`/`create_inv` (two sections, `.shstrtab`, `e_shstrndx = 1`,
+    `EI_DATA` declares the byte order), `sectionsAdd_name` (the writer's `add_string` refines
+    `Spec.addStr`, C08; earlier names stay valid).
+ 3. stream — `saveSection_writes` (`adjust_stream_size` + `write`), `applyWrites_slices` (Lemmas/Save).
+ 4. composition — `save_decodes` (+ `_header`, `_section`, `_segment`): after a successful save every
+    record and every section's data is in the stream where the header says; `save_header_fields`;
+    `save_decode_fields`, `save_decode_header`, `save_image_header`: the saved bytes, read with the
+    *specification's* decoder, give back the object's header attributes, sections (same order; name
+    offset, type, flags, size, link, info, alignment, entry size, explicit address, data) and segments
+    (type, flags, addresses, alignment ≥ requested, ELF64 memory size ≥ given).
+Hypotheses of 4: save succeeded into a non-failed unbudgeted stream; no address translation;
+`LayoutOk` (= C04's `layout_disjoint`, taken as a hypothesis: the written ranges are pairwise disjoint,
+offsets < 2^63) — so all rungs (no segments / flat / nested) are covered at once; `FieldsFit`.
+Not proved here: `LayoutOk` itself (C04); section *names* as strings of the reloaded file are the
+composition of `sectionsAdd_name` (offset points at the name in the table) with the data clause of
+`save_decode_fields` for the `.shstrtab` section and C08's `get_refines` — not spelled out as one
+theorem; compression interfaces are outside the model.
 -/
 import ElfioVerif.Lemmas.Save
 import ElfioVerif.Props.C02
